@@ -210,6 +210,10 @@ def set_rule(ctx, syn):
         cases = [(a, True, b, True) for a in subsets for b in subsets]
         cases += [(a, False, b, sb) for a in unsorted + subsets[:8] for b in subsets[::3] + unsorted for sb in ((True, False) if b == sorted(set(b)) else (False,))]
         cases += [(a, True, b, False) for a in subsets[::3] for b in unsorted]
+        # the len()==0 / len()==1 fast paths of the operand, against every kind of receiver (a UNION's accumulator is unsorted)
+        small = [[]] + [[x] for x in universe]
+        cases += [(a, sa, b, sb) for a in unsorted + subsets for sa in ((True, False) if a == sorted(a) else (False,)) for b in small for sb in (True, False)]
+        cases += [(b, sb, a, sa) for a in unsorted + subsets[::2] for sa in ((True, False) if a == sorted(a) else (False,)) for b in small for sb in (True, False)]
         for a, sa, b, sb in cases:
             A = StructVal("Handles", {"array": list(a), "sorted": sa})
             B = StructVal("Handles", {"array": list(b), "sorted": sb})
